@@ -5,7 +5,7 @@ import itertools
 ID = "C10"
 SCHEDULE_DEPENDENT = True     # a failure that does not recur when the case is re-run is still reported (engine: report())
 THEOREM_MODULE = "SimVerif.Props.C10"
-THEOREM_MODULES = ["SimVerif.Props.C10", "SimVerif.Tie.Track", "SimVerif.Tie.StoreCmd"]
+THEOREM_MODULES = ["SimVerif.Props.C10", "SimVerif.Tie.Track", "SimVerif.Tie.StoreCmd", "SimVerif.Tie.FanOut"]
 NONTRIVIAL_FLAGS = {"iterator", "results", "errors", "multi-cand", "owned-multi", "interleaved-shards", "only-baked", "plan-workersfirst", "plan-callerfirst", "plan-order"}
 RULE = ("cases = a store with 1..4 shards filled with tracks of 0..3 observations in 1..3 classes (mixed compatibility and status through the attribute values), then `store fdist` (1..4 external candidates) and `store odist` (stored candidates) "
         "with both only_baked settings, the results read either with all() or through the streaming iterators (`fdisti` / `odisti`); before a query a schedule plan is installed through the similari_verif hook: `order` = an explicit interleaving of the per-shard command executions (all interleavings for <=6 commands in the thorough tier, random otherwise), "
@@ -80,7 +80,7 @@ def shape_key(case, results):
             return "store-" + t[1] + "-" + "-".join(f for f in r.flags if f.startswith("plan-") or f in ("owned-multi",))
     return "none"
 
-SOURCE_TIE = "Source-level tie by proof (Tie/Track, Tie/StoreCmd): Track::distances and the Distances command of the store worker, regenerated from the source, equal the model's distances / distPair / queryOne per shard."
+SOURCE_TIE = "Source-level tie by proof (Tie/Track, Tie/StoreCmd): Track::distances and the Distances command of the store worker, regenerated from the source, equal the model's distances / distPair / queryOne per shard. Also by proof (Tie/FanOut): the caller's side of foreign_track_distances sends one Distances command per candidate and executor, candidate-major, and expects executors x candidates chunks, so the hypothesis of C10_schedule_independent holds for what the real code sends (C10_source_fanout)."
 LEVEL_TEXT = LEVEL_TEXT + " " + SOURCE_TIE
 TRUSTED_BASE = TRUSTED_BASE + ["translator/kernels.py + rustexpr.py (reader of the Rust subset, per-function tables) for the functions named in SOURCE_TIE; generated definitions are proof obligations (Tie modules) on every run"]
 TECHNIQUE = TECHNIQUE + "; model regenerated from the source by a translator for the functions of SOURCE_TIE, tied by proof"
